@@ -60,6 +60,9 @@ def quiet_logging():
     lg.setLevel(logging.DEBUG if os.environ.get("VF_LOG_DEBUG") == "1" else logging.CRITICAL)
 
 
+_ORCH_CODE = {}
+
+
 def load_orchestrator(name="orch", optimize=None):
     """Load nextflow/scripts/batchie.py of the tree under test as a module.  optimize=1 compiles it the way
     `python -O batchie.py` would (assert statements stripped); None follows the running interpreter."""
@@ -68,7 +71,10 @@ def load_orchestrator(name="orch", optimize=None):
     path = os.path.join(REPO, "nextflow", "scripts", "batchie.py")
     with open(path, encoding="utf-8") as f:
         src = f.read()
-    code = compile(src, path, "exec", optimize=-1 if optimize is None else int(optimize), dont_inherit=True)
+    key = (path, optimize, hash(src))
+    code = _ORCH_CODE.get(key)
+    if code is None:
+        code = _ORCH_CODE[key] = compile(src, path, "exec", optimize=-1 if optimize is None else int(optimize), dont_inherit=True)
     mod = types.ModuleType(name)
     mod.__file__ = path
     sys.modules[name] = mod
